@@ -5,8 +5,10 @@ import OxyModel.Proofs.CBreaker.Machine
 
 Property theorems only (helper lemmas: `OxyModel/Proofs/CBreaker/Machine.lean`).  Model:
 `OxyModel/Model/CBreaker.lean` — `CB.arrive` = `activateFallback`, `CB.complete` = `Record` + `checkAndSet`.
-A trace is any list of `arrive t` / `complete t code oracle` events, i.e. any interleaving of overlapping
-requests; `step c (run c b pre).1 e` is what event `e` shows after the history `pre`
+A trace is any list of `arrive t`, `record t code`, `check t oracle` and `complete t code oracle` events
+(`complete` = `record` then `check` with nothing in between; `record` is `metrics.Record`, which does not
+run under the breaker's lock, so other requests' steps may fall between a request's `record` and its
+`check`), i.e. any interleaving of overlapping requests at the granularity of the code's critical sections; `step c (run c b pre).1 e` is what event `e` shows after the history `pre`
 (`CB.obs_at`: it is the `pre.length`-th observation of every trace that extends `pre ++ [e]`).
 All theorems hold from **every** breaker state `b`, in particular from `Brk.init` and every reachable state.
 -/
@@ -16,46 +18,42 @@ open CB CBExpr
 /-- time stamps never decrease along the trace (the frozen clock only advances) -/
 def Sorted (es : List Ev) : Prop := es.Pairwise (fun x y => x.time ≤ y.time)
 
-/-- **shield**: if the completion at `T` trips the breaker, then after any further events `mid` (arrivals,
-    completions of requests admitted earlier, any response codes, any clock advances) a request arriving at
+/-- **shield**: if the event `e` (a `check`, or a `complete`) trips the breaker at `T = e.time` (it shows
+    `done true`), then after any further events `mid` (arrivals, records and checks of requests admitted
+    earlier in any interleaving, any response codes, any clock advances) a request arriving at
     `t < T + fallbackDuration` is answered by the fallback, and the breaker is still tripped with the
     deadline `T + fallbackDuration`.  (Events of `mid` lie in `[T, t]` by sortedness; no second trip can
     intervene, so `T` is the latest trip.) -/
-theorem C05_tripped_shields (c : Cfg) (b : Brk) (pre mid : List Ev) (T code : Nat) (orc : Oracle) (t : Nat)
-    (hsorted : Sorted (pre ++ .complete T code orc :: (mid ++ [.arrive t])))
-    (htrip : (step c (run c b pre).1 (.complete T code orc)).2 = .done true)
-    (hlt : t < T + c.fallbackDur) :
-    (step c (run c b (pre ++ .complete T code orc :: mid)).1 (.arrive t)).2 = .fallback ∧
-    (run c b (pre ++ .complete T code orc :: mid)).1.state = .tripped ∧
-    (run c b (pre ++ .complete T code orc :: mid)).1.until_ = T + c.fallbackDur := by
-  have hflag : (complete c (run c b pre).1 T code orc).2 = true := by
-    have : Obs.done (complete c (run c b pre).1 T code orc).2 = .done true := htrip
-    injection this
-  obtain ⟨f1, f2, _⟩ := complete_true_fields c (run c b pre).1 T code orc hflag
+theorem C05_tripped_shields (c : Cfg) (b : Brk) (pre mid : List Ev) (e : Ev) (t : Nat)
+    (hsorted : Sorted (pre ++ e :: (mid ++ [.arrive t])))
+    (htrip : (step c (run c b pre).1 e).2 = .done true)
+    (hlt : t < e.time + c.fallbackDur) :
+    (step c (run c b (pre ++ e :: mid)).1 (.arrive t)).2 = .fallback ∧
+    (run c b (pre ++ e :: mid)).1.state = .tripped ∧
+    (run c b (pre ++ e :: mid)).1.until_ = e.time + c.fallbackDur := by
+  obtain ⟨f1, f2, _⟩ := step_done_true c (run c b pre).1 e htrip
   have hs2 := (List.pairwise_append.mp hsorted).2.1
   have hs3 := (List.pairwise_cons.mp hs2).2
-  have hmid : ∀ e ∈ mid, e.time ≤ t := by
-    intro e he
-    have := (List.pairwise_append.mp hs3).2.2 e he (.arrive t) (by simp)
-    exact this
-  have hfin : (run c b (pre ++ .complete T code orc :: mid)).1 =
-      (run c (complete c (run c b pre).1 T code orc).1 mid).1 := by
-    rw [run_append, run_cons]; rfl
-  obtain ⟨s1, s2, _, _, _⟩ := shield c mid (complete c (run c b pre).1 T code orc).1 f1
-    (fun e he => by rw [f2]; exact Nat.lt_of_le_of_lt (hmid e he) hlt)
+  have hmid : ∀ e' ∈ mid, e'.time ≤ t := by
+    intro e' he
+    exact (List.pairwise_append.mp hs3).2.2 e' he (.arrive t) (by simp)
+  have hfin : (run c b (pre ++ e :: mid)).1 = (run c (step c (run c b pre).1 e).1 mid).1 := by
+    rw [run_append, run_cons]
+  obtain ⟨s1, s2, _, _, _⟩ := shield c mid (step c (run c b pre).1 e).1 f1
+    (fun e' he => by rw [f2]; exact Nat.lt_of_le_of_lt (hmid e' he) hlt)
   rw [hfin]
   refine ⟨?_, s1, by rw [s2, f2]⟩
   have := arrive_tripped_before c _ t s1 (by rw [s2, f2]; exact hlt)
   show (match (arrive c _ t).1 with | .pass => Obs.pass | .fallback => Obs.fallback) = _
   rw [this]
 
-/-- every event of the shielded interval: arrivals get the fallback, completions do not trip again -/
-theorem C05_tripped_shields_all (c : Cfg) (b : Brk) (T code : Nat) (orc : Oracle) (mid : List Ev)
-    (htrip : (complete c b T code orc).2 = true)
-    (hlt : ∀ e ∈ mid, e.time < T + c.fallbackDur) :
-    (run c (complete c b T code orc).1 mid).2 = mid.map shieldObs := by
-  obtain ⟨f1, f2, _⟩ := complete_true_fields c b T code orc htrip
-  exact (shield c mid _ f1 (fun e he => by rw [f2]; exact hlt e he)).2.2.2.2
+/-- every event of the shielded interval: arrivals get the fallback, records record, no check trips again -/
+theorem C05_tripped_shields_all (c : Cfg) (b : Brk) (e : Ev) (mid : List Ev)
+    (htrip : (step c b e).2 = .done true)
+    (hlt : ∀ e' ∈ mid, e'.time < e.time + c.fallbackDur) :
+    (run c (step c b e).1 mid).2 = mid.map shieldObs := by
+  obtain ⟨f1, f2, _⟩ := step_done_true c b e htrip
+  exact (shield c mid _ f1 (fun e' he => by rw [f2]; exact hlt e' he)).2.2.2.2
 
 /-- **standby passes**: in standby every request is handed to the protected handler, state untouched -/
 theorem C05_standby_passes (c : Cfg) (b : Brk) (t : Nat) (h : b.state = .standby) :
@@ -63,8 +61,8 @@ theorem C05_standby_passes (c : Cfg) (b : Brk) (t : Nat) (h : b.state = .standby
   show ((arrive c b t).2, match (arrive c b t).1 with | .pass => Obs.pass | .fallback => Obs.fallback) = _
   rw [arrive_standby c b t h]
 
-/-- … and it stays that way until a completion trips the breaker: along any trace from standby in which
-    no completion trips, the breaker is in standby and no request is answered by the fallback -/
+/-- … and it stays that way until a check trips the breaker: along any trace from standby in which
+    no check trips, the breaker is in standby and no request is answered by the fallback -/
 theorem C05_standby_until_trip (c : Cfg) : ∀ (es : List Ev) (b : Brk), b.state = .standby →
     (∀ o ∈ (run c b es).2, o ≠ .done true) →
     (run c b es).1.state = .standby ∧ ∀ o ∈ (run c b es).2, o ≠ .fallback := by
@@ -74,8 +72,8 @@ theorem C05_standby_until_trip (c : Cfg) : ∀ (es : List Ev) (b : Brk), b.state
   | cons e es ih =>
     intro b h hno
     rw [run_cons] at hno ⊢
-    cases e with
-    | arrive t =>
+    by_cases harr : ∃ t, e = .arrive t
+    · obtain ⟨t, rfl⟩ := harr
       rw [C05_standby_passes c b t h] at hno ⊢
       obtain ⟨i1, i2⟩ := ih b h (fun o ho => hno o (List.mem_cons_of_mem _ ho))
       refine ⟨i1, ?_⟩
@@ -83,20 +81,18 @@ theorem C05_standby_until_trip (c : Cfg) : ∀ (es : List Ev) (b : Brk), b.state
       rcases List.mem_cons.mp ho with rfl | ho
       · simp
       · exact i2 o ho
-    | complete t code orc =>
-      have hf : (complete c b t code orc).2 = false := by
-        cases hf : (complete c b t code orc).2 with
-        | false => rfl
-        | true =>
-          have : Obs.done (complete c b t code orc).2 ≠ .done true := hno _ List.mem_cons_self
-          rw [hf] at this; exact absurd rfl this
-      have hst : (step c b (.complete t code orc)).1.state = .standby :=
-        ((complete_false c b t code orc hf).1).trans h
+    · have hnt : (step c b e).2 ≠ .done true := hno _ List.mem_cons_self
+      have hst : (step c b e).1.state = .standby :=
+        (step_not_trip c b e hnt (fun t he => harr ⟨t, he⟩)).trans h
       obtain ⟨i1, i2⟩ := ih _ hst (fun o ho => hno o (List.mem_cons_of_mem _ ho))
       refine ⟨i1, ?_⟩
       intro o ho
       rcases List.mem_cons.mp ho with rfl | ho
-      · show Obs.done _ ≠ _; simp
+      · cases e with
+        | arrive t => exact absurd ⟨t, rfl⟩ harr
+        | record t code => show Obs.recorded ≠ _; simp
+        | check t orc => show Obs.done _ ≠ _; simp
+        | complete t code orc => show Obs.done _ ≠ _; simp
       · exact i2 o ho
 
 /-- the only moves of the state -/
@@ -125,12 +121,13 @@ theorem C05_edges (c : Cfg) (b : Brk) (es : List Ev) (e : Ev) :
 theorem C05_tripped_until (c : Cfg) (b : Brk) (e : Ev) (h : b.state = .tripped)
     (h' : (step c b e).1.state ≠ .tripped) : b.until_ ≤ e.time ∧ ∃ t, e = .arrive t := by
   refine ⟨leave_tripped c b e h h', ?_⟩
-  cases e with
-  | arrive t => exact ⟨t, rfl⟩
-  | complete t code orc =>
-    exfalso
-    have hf := complete_tripped c b t code orc h
-    exact h' (((complete_false c b t code orc hf).1).trans h)
+  by_cases harr : ∃ t, e = .arrive t
+  · exact harr
+  · exfalso
+    have hnt : (step c b e).2 ≠ .done true := by
+      intro hd
+      exact (step_done_true c b e hd).2.2.2.2.2.1 h
+    exact h' ((step_not_trip c b e hnt (fun t he => harr ⟨t, he⟩)).trans h)
 
 /-! ### non-vacuity: a real trip with overlapping requests
 
@@ -147,6 +144,17 @@ def exTrace : List Ev :=
 example : (run exCfg Brk.init exTrace).2 =
     [.pass, .pass, .done true, .fallback, .done false, .fallback] := by decide
 example : Sorted exTrace := by unfold Sorted; decide
+
+/-- overlapping completions *around* the trip, below the granularity of whole completions: both responses
+    are recorded before either request reaches `checkAndSet`; the first check sees `{502, 200}`
+    (`NetworkErrorRatio() >= 0.5`) and trips, the second is not due.  (Run to completion one after the other,
+    `[502, 200]` would trip at the first and `[200, 502]` at the second with other metrics left behind.) -/
+def exCfg2 : Cfg := ⟨10000000000, 10000000000, 100000000, .cmp .ge .ner (.float 1 2)⟩
+def exTrace2 : List Ev :=
+  [.arrive T0, .arrive T0, .record (T0 + 1000000) 502, .record (T0 + 1000000) 200,
+   .check (T0 + 1000000) [], .check (T0 + 1000000) [], .arrive (T0 + 1000001)]
+example : (run exCfg2 Brk.init exTrace2).2 =
+    [.pass, .pass, .recorded, .recorded, .done true, .done false, .fallback] := by decide
 example : new exCfg = some Brk.init := by decide
 
 end C05
